@@ -119,6 +119,22 @@ class P:
                     for p_, w_ in probes:
                         seq.append(p_); want.append(w_ if w_ else "PARSE")
                 items.append((" ".join(seq), ("after-fault", None, want, 0)))
+        # ... and the same for a CONTEXT function (by bare name and by call) that fails: once the host has re-bound the name to a
+        # function that works, the very next use of that name - same context, same thread - runs it; so do another context
+        # with a function of that name and another thread
+        for fault in ("p", "e"):
+            for use, val in (("boom + 1", "n(0,8,0)"), ("boom() + 1", "n(0,8,0)"), ("[boom, boom]", None), ("x = boom; x", "n(0,7,0)")):
+                seq = ["H:61:%s" % fault, "H:62:rn(0,7,0)", "CF:1:%s:61" % hx("boom"), "CF:2:%s:62" % hx("boom")]
+                want = [None] * len(seq)
+                # (a plain EXEC runs on a thread of its own; `@w/` is one long-lived thread: what a failed call leaves behind
+                # per thread is met by the calls that follow on it)
+                seq.append("@w/EXEC:1:" + hx(use)); want.append("FAULT")
+                seq.append("EXEC:1:" + hx(use)); want.append("FAULT")
+                seq.append("CF:1:%s:62" % hx("boom")); want.append(None)
+                for p_ in ("@w/EXEC:1:", "@w/EXEC:2:", "@t/EXEC:1:", "EXEC:1:", "@w/EXEC:2:", "@w/EXEC:1:"):
+                    seq.append(p_ + hx(use)); want.append(val or "OKANY")
+                seq.append("EXEC:3:" + hx("1 + 2 * 3")); want.append("n(0,7,0)")
+                items.append((" ".join(seq), ("after-fault", None, want, 0)))
         # what other threads parse CONCURRENTLY must not change what a later call does: rounds of a registration racing the first
         # uses of that spelling on other threads, each followed by a sequential use whose result is fixed by the registrations
         # made so far (whatever a racing parse left in a cache on the way must not be observable afterwards)
@@ -206,6 +222,9 @@ class P:
                     return "violates", "after an evaluation failed inside a user handler, an unrelated call did not return: " + o[:30]
                 if want == "PARSE":
                     if o.split(":")[0] != "OK": return "violates", "after an evaluation failed inside a user handler, an unrelated parse gave " + o[:40]
+                    continue
+                if want == "OKANY":
+                    if o.split(":")[0] != "OK": return "violates", "after an evaluation failed inside a user handler, a later evaluation gave " + o[:40]
                     continue
                 d = values.split_exec(o)
                 if d["cls"] != "OK" or d["value"] != want:
